@@ -183,9 +183,12 @@ def strategy(tier):
     S = values.strategies()
     st = S['st']
     parts = stdvals.std_strategy(S)
-    inner = st.one_of(*[parts[k] for k in sorted(parts)])
+    inner_ = st.one_of(*[parts[k] for k in sorted(parts)])
+    inner = st.deferred(lambda: inner_)         # (keeps the repr of the nested strategy short, see C11)
     # second level: stdlib instances as payloads of stdlib containers (compared by type and repr inside the payload)
     payload = st.one_of(st.recursive(S['leaf'], S['value_ext'], max_leaves=4), inner, st.lists(inner, max_size=2).map(lambda xs: ['list', xs]))
+    payload_ = payload
+    payload = st.deferred(lambda: payload_)
     nested = stdvals.std_strategy(S, payload=payload)
     outer = st.one_of(*[nested[k] for k in ('odict', 'ddict', 'deque', 'chainmap', 'mproxy', 'ns', 'ntuple', 'partial', 'exc')])
     inst = st.one_of(inner, inner, inner, outer)
